@@ -247,9 +247,15 @@ func fullRangeInduction(idx ssa.Value, sameSlice func(v ssa.Value) bool) *ssa.Ba
 	// range loop lowered by go/ssa for slices: φ(-1, i+1) with `i+1 < len` test; index value is the incremented one
 	if bo, ok := idx.(*ssa.BinOp); ok && bo.Op == token.ADD {
 		if k, isC := constInt(bo.Y); isC && k == 1 {
-			if ph, ok := bo.X.(*ssa.Phi); ok && len(ph.Edges) == 2 {
+			if ph, ok := bo.X.(*ssa.Phi); ok && len(ph.Edges) >= 2 {
 				init, okI := constInt(ph.Edges[0])
-				if okI && init == -1 && ph.Edges[1] == ssa.Value(bo) {
+				rest := true
+				for _, e := range ph.Edges[1:] {
+					if e != ssa.Value(bo) {
+						rest = false
+					}
+				}
+				if okI && init == -1 && rest {
 					// header: if bo < len(s)
 					if iff, ok := lastInstr(bo.Block()).(*ssa.If); ok {
 						if c, ok := iff.Cond.(*ssa.BinOp); ok && c.Op == token.LSS && c.X == ssa.Value(bo) && isLenOf(c.Y, sameSlice) {
